@@ -1172,3 +1172,62 @@ def no_value_without_name(ctx, rule, which):
            ("finish_attribute empties the value buffer on its empty-name return" if clears_on_empty else "value states are entered from attribute states only") if ok else
            "state %s switches to %s with no attribute started, and finish_attribute returns for an empty name without emptying the value buffer: the collected characters are glued to the next attribute's value, in a later tag" % sorted(strays)[0],
            "%s tokenizer finish_attribute / states" % which)
+
+
+def emit_tag_transcription(ctx, rule):
+    """'Emit the current tag token' and 'appropriate end tag token' (html5ever), cell by cell:
+    the pending attribute is finished FIRST; the last-start-tag name is remembered for start tags only; the token carries the
+    collected kind, name, self-closing flag, attribute list (taken) and duplicate flag; what the sink answers selects the next
+    tokenizer state - Plaintext -> PLAINTEXT, RawData(k) -> that raw state, Script -> data + a pause handed on, an encoding
+    indicator handed on, Continue nothing.  An end tag token is appropriate iff a start tag was emitted before and its name
+    equals the current tag's name."""
+    T = ctx.tables("html")
+    cells = T["helpers"].get("emit_current_tag")
+    if not cells:
+        raise AnchorMissing("emit_current_tag not tabulated")
+    TOKEN = "TagToken(Tag(self.current_tag_kind.get(),from(self.current_tag_name),self.current_tag_self_closing.get(),take(self.current_tag_attrs),self.current_tag_had_duplicate_attributes.get()))"
+    bad = None
+    n = 0
+    for pc in cells:
+        acts = [(a, [str(x) for x in args]) for a, args in pc["actions"]]
+        names = [a for a, _ in acts]
+        g = pc["guards"]
+        n += 1
+        if not names or names[0] != "finish_attribute":
+            bad = bad or "the tag is emitted without finishing the pending attribute first: the last attribute of every tag is lost (or turns up in the next tag)"
+        start = g.get("self.current_tag_kind.get() matches StartTag")
+        remembered = [args for a, args in acts if a == "assign self.last_start_tag_name"]
+        if start is True and remembered != [["Some(from(self.current_tag_name))"]]:
+            bad = bad or "a start tag does not record its name as the last start tag name (%s)" % remembered
+        if start is False and remembered:
+            bad = bad or "an END tag overwrites the last start tag name: `<title></b></title>` no longer finds its appropriate end tag"
+        toks = [args for a, args in acts if a == "process_token"]
+        if len(toks) != 1 or toks[0][0].replace(" ", "") != TOKEN:
+            bad = bad or "the token handed to the sink is %s" % (toks[0][0][:120] if toks else "missing")
+        res = [k[len("self.process_token() matches "):] for k, v in g.items() if v is True and k.startswith("self.process_token() matches ")]
+        res = res[0] if res else None
+        st = [args[0] for a, args in acts if a == "set self.state"]
+        ret = str(pc["ret"])
+        want = {"Continue": ([], "Continue"), "Plaintext": (["Plaintext"], "Continue"), "Script(_)": (["Data"], "Script(self.process_token().0)"),
+                "RawData(_)": (["RawData(self.process_token().0)"], "Continue"), "EncodingIndicator(_)": ([], "EncodingIndicator(self.process_token().0)")}.get(res)
+        if want is None:
+            bad = bad or "a path of emit_current_tag does not decide on the sink's answer (%s)" % res
+        elif (st, ret) != want:
+            bad = bad or "the sink answers %s and the tokenizer sets state %s and answers %s; expected state %s, answer %s" % (res, st, ret, want[0], want[1])
+    ctx.ob(rule, "emit-current-tag", bad is None and n >= 10, bad or "%d cells: attribute finished first, last start tag for start tags only, token fields, sink answer -> state" % n, "html tokenizer emit_current_tag")
+    cells = T["helpers"].get("have_appropriate_end_tag")
+    if not cells:
+        raise AnchorMissing("have_appropriate_end_tag not tabulated")
+    bad = None
+    for pc in cells:
+        g = pc["guards"]
+        ret = str(pc["ret"]).replace(" ", "")
+        some = g.get("self.last_start_tag_name matches Some(_)")
+        if some is False and ret != "false":
+            bad = bad or "with no start tag emitted yet the end tag counts as appropriate (%s)" % ret
+        if some is True and g.get("self.current_tag_kind.get() matches EndTag") is not False:
+            if ret not in ("(self.current_tag_name==self.last_start_tag_name.0)", "(self.last_start_tag_name.0==self.current_tag_name)", "true", "false") or ret in ("true",):
+                bad = bad or "appropriate end tag is decided as %s, not by comparing the tag name with the last start tag name" % ret
+            if ret in ("true", "false") and not any("current_tag_name" in k and "last_start_tag_name" in k for k in g):
+                bad = bad or "appropriate end tag is answered %s without comparing the names" % ret
+    ctx.ob(rule, "appropriate-end-tag", bad is None and len(cells) >= 2, bad or "true only if a start tag was emitted and the names are equal", "html tokenizer have_appropriate_end_tag")
